@@ -49,6 +49,7 @@ type c10Def struct {
 	hostOK  bool
 	viaCtx  bool // defined through EvalWithContext
 	desync  bool // a use of a stateful definition went wrong: the model no longer knows its state
+	prog    *interp.Program // `callee(3)` compiled right after the definition (compile once, execute per request)
 }
 
 func (d *c10Def) src(j int) string {
@@ -234,7 +235,12 @@ func RunC10(t *testing.T, tape *Tape) *Outcome {
 		case 3:
 			steps = append(steps, c10Step{Kind: "use-ctx", Def: pick(), Arg: 1 + tape.Choose(9), K: tape.Choose(6)})
 		case 4:
-			steps = append(steps, c10Step{Kind: "use-host", Def: pick(), Arg: 1 + tape.Choose(9)})
+			if tape.Choose(3) == 2 {
+				// the program compiled at definition time, executed with or without a context
+				steps = append(steps, c10Step{Kind: [...]string{"use-prog", "use-prog-ctx"}[tape.Choose(2)], Def: pick(), Arg: 3})
+			} else {
+				steps = append(steps, c10Step{Kind: "use-host", Def: pick(), Arg: 1 + tape.Choose(9)})
+			}
 		}
 	}
 	var hist []string
@@ -312,6 +318,9 @@ func RunC10(t *testing.T, tape *Tape) *Outcome {
 						return
 					}
 				}
+				if p, err := it.Compile(fmt.Sprintf("%s(3)", d.callee(j))); err == nil {
+					d.prog = p
+				}
 				v, err := it.Eval(d.callee(j))
 				if err == nil && v.IsValid() && v.Kind() == reflect.Func {
 					if fn, ok := v.Interface().(func(int) int); ok {
@@ -359,6 +368,34 @@ func RunC10(t *testing.T, tape *Tape) *Outcome {
 					if cancels > 0 {
 						usesAfterCancel++
 					}
+				case "use-prog", "use-prog-ctx":
+					if d.prog == nil || d.desync {
+						continue
+					}
+					want := d.model(3)
+					var v reflect.Value
+					var err error
+					if s.Kind == "use-prog-ctx" {
+						v, err = it.ExecuteWithContext(context.Background(), d.prog)
+					} else {
+						v, err = it.Execute(d.prog)
+					}
+					got := ""
+					switch {
+					case err != nil:
+						got = "error: " + err.Error()
+					case !v.IsValid() || !v.CanInt():
+						got = fmt.Sprintf("non-int result %v", v)
+					case int(v.Int()) != want:
+						got = fmt.Sprint(v.Int())
+					}
+					if got != "" {
+						mism = append(mism, mismatch{si, s.Def, s.Kind, got, want, after, afterDetail})
+						d.desync = true
+					}
+					if cancels > 0 {
+						usesAfterCancel++
+					}
 				case "use-host":
 					if !d.hostOK || d.desync {
 						continue
@@ -381,6 +418,11 @@ func RunC10(t *testing.T, tape *Tape) *Outcome {
 						src = "for { host.Tick(1) }"
 					case xBlocked:
 						src = "cc := make(chan int); <-cc"
+						if d.kind == dGlobalCounter {
+							// blocked in a receive whose value would be assigned to the
+							// definition's package-level variable
+							src = fmt.Sprintf("rcv := make(chan int); gc%d = <-rcv", s.Def)
+						}
 						if d.kind == dChanState {
 							// blocked ranging over the (empty) channel of a definition
 							src = fmt.Sprintf("host.Tick(Drain%d())", s.Def)
